@@ -526,9 +526,9 @@ class Directive:
     def parse_head(self):
         h = self.head
         # options with quoted strings
-        for m in re.finditer(r'\b(ret|until|rename)\s+"((?:[^"\\]|\\.)*)"', h):
+        for m in re.finditer(r'\b(ret|until|rename|generics)\s+"((?:[^"\\]|\\.)*)"', h):
             self.opts[m.group(1)] = m.group(2).replace('\\"', '"')
-        h = re.sub(r'\b(ret|until|rename)\s+"((?:[^"\\]|\\.)*)"', '', h)
+        h = re.sub(r'\b(ret|until|rename|generics)\s+"((?:[^"\\]|\\.)*)"', '', h)
         m = re.search(r'\brename\s+(\w+)', h)
         if m:
             self.opts['rename'] = m.group(1)
@@ -840,6 +840,12 @@ class Weaver:
             body = rw_bytes(body, log, where)
         params = parts['params']
         generics = parts['generics']
+        if 'generics' in d.opts:
+            if generics:
+                raise Unsupported(f'{where}: generics option given but the source signature already has generics')
+            generics = tokenize(d.opts['generics'])
+            log.append({'rule': 'R12', 'what': f'generic parameter list `{d.opts["generics"]}` added (impl Trait argument named)',
+                        'where': where})
         wherecl = parts['where']
         for kind, arg, lines in d.sections:
             if kind == 'subst':
